@@ -20,6 +20,9 @@ use std::sync::Arc;
 use std::time::Duration;
 
 const LIMIT: usize = 70_000; // above any legal count (65535)
+static NAMES: std::sync::atomic::AtomicU64 = std::sync::atomic::AtomicU64::new(0);
+static DERIVED: std::sync::atomic::AtomicU64 = std::sync::atomic::AtomicU64::new(0);
+static BATTERIES: std::sync::atomic::AtomicU64 = std::sync::atomic::AtomicU64::new(0);
 
 // ------------------------------------------------------------ the script
 
@@ -29,6 +32,15 @@ struct T {
     ptr_names: u32,
     rdata_parsed: u32,
     errs: Vec<String>,
+    /// derived name objects (suffixes, parents, split_first remainders) put through the battery
+    derived: u32,
+    batteries: u32,
+    /// derive name objects in this run of the script (first of the two runs)
+    derive: bool,
+    /// derived objects get the full battery, not only its core
+    full_derived: bool,
+    /// thorough tier: derivations of derived names
+    deep: bool,
 }
 impl T {
     fn ev(&mut self, k: &str) {
@@ -37,206 +49,405 @@ impl T {
     }
 }
 
-/// Exercise a parsed name: everything must work, and the labels must equal
-/// the independent decompression at `pos` if the name starts there.
-fn use_name<O: octseq::Octets>(t: &mut T, n: &ParsedName<O>, msg: &[u8]) {
+/// What the independent label list says about one name object: its labels
+/// (root label included), their uncompressed wire form and the lowercased
+/// wire form. For a suffix these are sub-slices of the original's.
+#[derive(Clone, Copy)]
+struct Exp<'a> {
+    labels: &'a [Vec<u8>],
+    want: &'a [u8],
+    lower: &'a [u8],
+}
+impl<'a> Exp<'a> {
+    /// The expectation for the name with the first `k` labels dropped.
+    fn suffix(&self, k: usize) -> Exp<'a> {
+        let off: usize = self.labels[..k].iter().map(|l| 1 + l.len()).sum();
+        Exp { labels: &self.labels[k..], want: &self.want[off..], lower: &self.lower[off..] }
+    }
+}
+
+/// Exercise a parsed name: everything must work, the labels must be the
+/// independent decompression (mc::wire) of some position of the message, and
+/// every name object DERIVED from it (each item of iter_suffixes(), each step
+/// of a parent() walk, each remainder of a split_first() walk, alternating
+/// walks) must pass the same battery as the name itself, against the
+/// corresponding suffix of the independent label list.
+fn use_name(t: &mut T, n: &ParsedName<&[u8]>, msg: &[u8]) {
     t.names += 1;
     if n.is_compressed() {
         t.ptr_names += 1;
     }
     let fwd: Vec<Vec<u8>> = n.iter().take(300).map(|l| l.as_slice().to_vec()).collect();
-    let mut bwd: Vec<Vec<u8>> = n.iter().rev().take(300).map(|l| l.as_slice().to_vec()).collect();
-    bwd.reverse();
-    if fwd != bwd {
-        t.errs.push("name|iter-fwd-vs-back-differ".into());
-    }
     if fwd.len() >= 300 {
         t.errs.push("name|label-iteration-does-not-end".into());
+        return;
     }
     if fwd.last().map(|l| l.len()) != Some(0) {
         t.errs.push("name|does-not-end-with-root".into());
+        return;
     }
-    let flat: Vec<u8> = n.to_vec().as_slice().to_vec();
-    let mut want = Vec::new();
-    for l in &fwd {
-        want.push(l.len() as u8);
-        want.extend_from_slice(l);
-    }
-    if flat != want {
-        t.errs.push("name|to_vec-differs-from-label-iteration".into());
-    }
-    let mut composed = Vec::new();
-    n.compose(&mut composed).unwrap();
-    if composed != want {
-        t.errs.push("name|compose-differs-from-label-iteration".into());
-    }
-    if usize::from(n.compose_len()) != want.len() {
-        t.errs.push("name|compose_len-wrong".into());
-    }
+    let want = wire_of(&fwd);
     if mc::wire::validate_name(&want, true).is_err() {
         t.errs.push("name|parsed-name-is-not-a-valid-name".into());
+        return;
     }
-    if !(n == n) || n.cmp(n) != std::cmp::Ordering::Equal {
-        t.errs.push("name|not-equal-to-itself".into());
+    let lower = want.to_ascii_lowercase();
+    // independent decompression: a name handed out for this message is the decompression of at
+    // least one position of the message (candidates: positions holding a pointer or the first label)
+    if t.derive && msg.len() <= 4096 {
+        let first = &want[..1 + want[0] as usize];
+        let found = (0..msg.len()).any(|p| {
+            if msg[p] < 0xC0 && !msg[p..].starts_with(first) {
+                return false;
+            }
+            let mut ptrs = Vec::new();
+            match mc::wire::read_name(msg, p, &mut ptrs) {
+                Ok((labels, _)) => labels.len() + 1 == fwd.len() && labels.iter().zip(&fwd).all(|(a, b)| a == b),
+                Err(_) => false,
+            }
+        });
+        if !found {
+            t.errs.push("name|not-the-independent-decompression-of-any-position".into());
+        }
     }
-    let flatname = n.to_vec();
-    if n.name_eq(&flatname) != true || n.name_cmp(&flatname) != std::cmp::Ordering::Equal {
-        t.errs.push("name|not-equal-to-its-flat-copy".into());
+    let e = Exp { labels: &fwd, want: &want, lower: &lower };
+    battery(t, n, e, "name", true);
+    if t.derive {
+        let depth = if t.deep { 2 } else { 1 };
+        derived(t, n, e, depth, "");
     }
     let d = format!("{}", n);
     let _ = write!(t.s, "n({},{});", fwd.len(), d.len());
-    let _ = msg;
-    name_api(t, n, &fwd, &want);
 }
 
-/// The rest of ParsedName's public API, each result compared with what the
-/// independent label list says. "Whatever is returned as a name can itself
-/// be iterated, compared and displayed": that includes walking up the name.
-fn name_api<O: octseq::Octets>(t: &mut T, n: &ParsedName<O>, fwd: &[Vec<u8>], want: &[u8]) {
-    use domain::base::cmp::CanonicalOrd;
-    use domain::base::name::{FlattenInto, Name, ToLabelIter};
-    use std::hash::{Hash, Hasher};
-    let mut bad = |k: &str| t.errs.push(format!("name-api|{k}"));
-    // offsets of the suffixes in `want`
-    let mut offs = vec![0usize];
-    for l in fwd {
-        offs.push(offs.last().unwrap() + 1 + l.len());
+/// Uncompressed wire form of a label list that includes the root label.
+fn wire_of(labels: &[Vec<u8>]) -> Vec<u8> {
+    let mut want = Vec::new();
+    for l in labels {
+        want.push(l.len() as u8);
+        want.extend_from_slice(l);
     }
-    offs.pop();
-    let lower: Vec<u8> = {
-        let mut v = Vec::new();
-        for l in fwd {
-            v.push(l.len() as u8);
-            v.extend(l.iter().map(|b| b.to_ascii_lowercase()));
+    want
+}
+
+/// Every way of deriving a name object from `n`, each derived object put
+/// through the battery against the suffix of the expectation (k = number of
+/// labels dropped). `depth` > 1 repeats the derivations on every derived
+/// object.
+fn derived(t: &mut T, n: &ParsedName<&[u8]>, e: Exp<'_>, depth: u32, via: &str) {
+    let count = e.labels.len();
+    let full = t.full_derived;
+    let tag = |route: &str| if via.is_empty() { route.to_string() } else { format!("{via}{route}") };
+    // route A: iter_suffixes()
+    let mut sufs: [Option<ParsedName<&[u8]>>; 12] = [None; 12];
+    let mut nsuf = 0usize;
+    for (k, s) in n.iter_suffixes().take(300).enumerate() {
+        nsuf += 1;
+        if k >= count {
+            continue;
         }
-        v
-    };
-    if n.is_root() != (fwd.len() == 1) {
-        bad("is_root");
+        if k < sufs.len() {
+            sufs[k] = Some(s);
+        }
+        t.derived += 1;
+        battery(t, &s, e.suffix(k), "iter_suffixes", full);
+        if !n.ends_with(&s) {
+            t.errs.push(format!("derived-name|{}|name-does-not-end-with-its-suffix", tag("iter_suffixes")));
+        }
+        if depth > 1 && k > 0 {
+            derived(t, &s, e.suffix(k), depth - 1, &format!("{via}iter_suffixes>"));
+        }
     }
-    if n.label_count() != fwd.len() {
+    if nsuf != count {
+        t.errs.push(format!("derived-name|{}|number-of-suffixes-differs-from-number-of-labels", tag("iter_suffixes")));
+    }
+    // routes B, C: parent() walk, split_first() walk; D, E: the two alternating walks (their
+    // first step is the first step of B or C, so their objects count from the second step)
+    for (route, pattern) in [("parent", [true, true]), ("split_first", [false, false]), ("parent+split_first", [true, false]), ("split_first+parent", [false, true])] {
+        let pure = pattern[0] == pattern[1];
+        if !pure && count < 3 {
+            continue;
+        }
+        let mut p = *n;
+        let mut k = 0usize;
+        loop {
+            let more = if pattern[k % 2] {
+                p.parent()
+            } else {
+                let exp_label = &e.labels[k];
+                match p.split_first() {
+                    Some(f) => {
+                        let f = f.as_slice();
+                        if k + 1 >= count || f.len() != 1 + exp_label.len() || f[0] as usize != exp_label.len() || f[1..] != exp_label[..] {
+                            t.errs.push(format!("derived-name|{}|split_first-returns-wrong-label", tag(route)));
+                            break;
+                        }
+                        true
+                    }
+                    None => false,
+                }
+            };
+            if more != (k + 1 < count) {
+                t.errs.push(format!("derived-name|{}|walk-ends-at-wrong-label", tag(route)));
+                break;
+            }
+            if !more {
+                // a refused step must leave the name as it was
+                t.derived += 1;
+                battery(t, &p, e.suffix(k), &format!("{route}(refused-step)"), full);
+                break;
+            }
+            k += 1;
+            if !pure && k < 2 {
+                continue;
+            }
+            t.derived += 1;
+            battery(t, &p, e.suffix(k), route, full);
+            // the same suffix reached by different routes is the same name
+            if let Some(Some(s)) = sufs.get(k) {
+                use std::cmp::Ordering::Equal;
+                if !(p == *s) || !(*s == p) || p.cmp(s) != Equal || p.composed_cmp(s) != Equal || s.composed_cmp(&p) != Equal || p.lowercase_composed_cmp(s) != Equal {
+                    t.errs.push(format!("derived-name|{}|differs-from-same-suffix-by-iter_suffixes", tag(route)));
+                }
+            }
+            if !n.ends_with(&p) {
+                t.errs.push(format!("derived-name|{}|name-does-not-end-with-its-suffix", tag(route)));
+            }
+            if depth > 1 && pure {
+                derived(t, &p, e.suffix(k), depth - 1, &format!("{via}{route}>"));
+            }
+        }
+    }
+}
+
+/// The battery on one name object: the operations of ParsedName's public API
+/// and of the ToName / ToLabelIter / FlattenInto / comparison / hash traits,
+/// each result compared with what the independent label list says. The flat
+/// partner names are built from the independent labels, not from the object
+/// under test. The core part (everything that depends on the cached
+/// position / length / compressed-flag of the object) always runs; `full`
+/// adds the remaining conversions, views and the comparisons with further
+/// different names.
+fn battery<O: octseq::Octets>(t: &mut T, n: &ParsedName<O>, e: Exp<'_>, tag: &str, full: bool) {
+    use domain::base::cmp::CanonicalOrd;
+    use domain::base::name::{FlattenInto, Name};
+    use std::cmp::Ordering::{self, Equal, Greater};
+    use std::hash::{Hash, Hasher};
+    t.batteries += 1;
+    let (exp, want, lower) = (e.labels, e.want, e.lower);
+    let mut errs: Vec<String> = Vec::new();
+    let mut bad = |k: &str| errs.push(if tag == "name" { format!("name-api|{k}") } else { format!("derived-name|{tag}|{k}") });
+    // ---- core
+    // label iteration, both directions (bounded: a name has at most 128 labels)
+    if n.iter().take(300).count() >= 300 || n.iter().rev().take(300).count() >= 300 {
+        bad("label-iteration-does-not-end");
+        t.errs.extend(errs);
+        return;
+    }
+    if !n.iter().map(|l| l.as_slice()).eq(exp.iter().map(|v| v.as_slice())) {
+        bad("labels-differ-from-independent-labels");
+    }
+    if !n.iter().rev().map(|l| l.as_slice()).eq(exp.iter().rev().map(|v| v.as_slice())) {
+        bad("labels-iterated-backwards-differ-from-independent-labels");
+    }
+    if n.iter_labels().count() != exp.len() || n.label_count() != exp.len() {
         bad("label_count");
     }
-    if n.first().as_slice() != fwd[0].as_slice() || !n.last().is_root() {
+    if n.is_root() != (exp.len() == 1) {
+        bad("is_root");
+    }
+    if n.first().as_slice() != exp[0].as_slice() || !n.last().is_root() {
         bad("first-or-last");
+    }
+    // octet forms
+    if usize::from(n.compose_len()) != want.len() {
+        bad("compose_len-wrong");
     }
     if let Some(s) = n.as_flat_slice() {
         if s != want {
-            bad("as_flat_slice-differs-from-labels");
+            bad("as_flat_slice-differs-from-independent-labels");
         }
     }
-    let flat: Name<Vec<u8>> = n.to_vec();
-    // suffix iteration
-    let sufs: Vec<Vec<u8>> = n.iter_suffixes().take(300).map(|s| s.to_vec().as_slice().to_vec()).collect();
-    if sufs.len() != fwd.len() || sufs.iter().zip(&offs).any(|(s, o)| s.as_slice() != &want[*o..]) {
-        bad("iter_suffixes-differs-from-labels");
+    let mut buf = Vec::with_capacity(want.len() + 8);
+    n.compose(&mut buf).unwrap();
+    if buf != want {
+        bad("compose-differs-from-independent-labels");
     }
-    for s in n.iter_suffixes().take(300) {
-        let _ = format!("{} {:?}", s, s);
-        if !n.ends_with(&s) || s.cmp(&s) != std::cmp::Ordering::Equal {
-            bad("suffix-not-usable");
-        }
-        let mut it = 0;
-        for _ in s.iter() {
-            it += 1;
-            if it > 300 {
-                bad("suffix-iteration-does-not-end");
-                break;
-            }
-        }
-    }
-    // walking up with parent()
-    let mut p = n.ref_octets();
-    let mut k = 0usize;
-    loop {
-        if p.to_vec().as_slice() != &want[offs[k.min(offs.len() - 1)]..] {
-            bad("parent-walk-differs-from-labels");
-            break;
-        }
-        let more = p.parent();
-        if more != (k + 1 < fwd.len()) {
-            bad("parent-return-value");
-            break;
-        }
-        if !more {
-            break;
-        }
-        k += 1;
-        if k > 300 {
-            bad("parent-walk-does-not-end");
-            break;
-        }
-    }
-    // walking up with split_first()
-    let mut p = n.ref_octets();
-    let mut k = 0usize;
-    loop {
-        let first = p.split_first().map(|r| r.as_slice().to_vec());
-        match first {
-            Some(f) => {
-                if k + 1 >= fwd.len() || f.len() != 1 + fwd[k].len() || f[1..] != fwd[k][..] {
-                    bad("split_first-label");
-                    break;
-                }
-                k += 1;
-                if p.to_vec().as_slice() != &want[offs[k]..] {
-                    bad("split_first-rest-differs-from-labels");
-                    break;
-                }
-            }
-            None => {
-                if k + 1 != fwd.len() {
-                    bad("split_first-stops-early");
-                }
-                break;
-            }
-        }
-        if k > 300 {
-            bad("split_first-walk-does-not-end");
-            break;
-        }
-    }
-    // prefix / suffix predicates, conversions, orders, hash
-    if !n.starts_with(&flat) || !n.ends_with(&flat) || !n.ends_with(&Name::root_ref()) {
-        bad("starts_with-or-ends_with-itself");
-    }
-    if n.iter_labels().count() != fwd.len() {
-        bad("iter_labels");
-    }
-    let canon: Name<Vec<u8>> = n.to_canonical_name();
-    if canon.as_slice() != lower.as_slice() {
-        bad("to_canonical_name");
-    }
-    let mut cc = Vec::new();
-    n.compose_canonical(&mut cc).unwrap();
-    if cc != lower {
+    buf.clear();
+    n.compose_canonical(&mut buf).unwrap();
+    if buf != lower {
         bad("compose_canonical");
+    }
+    if n.to_vec().as_slice() != want {
+        bad("to_vec-differs-from-independent-labels");
+    }
+    if n.to_cow().as_slice() != want {
+        bad("to_cow-differs-from-independent-labels");
     }
     match n.ref_octets().try_flatten_into() {
         Ok::<Name<Vec<u8>>, _>(f) => {
             if f.as_slice() != want {
-                bad("flatten_into-differs-from-labels");
+                bad("try_flatten_into-differs-from-independent-labels");
             }
         }
-        Err(_) => bad("flatten_into-failed"),
+        Err(_) => bad("try_flatten_into-failed"),
     }
-    if n.to_cow().as_slice() != want || n.ref_octets().deref_octets().to_vec().as_slice() != want {
-        bad("to_cow-or-deref_octets");
+    // comparisons with itself and with the flat names made from the independent labels
+    if !(n == n) || n.cmp(n) != Equal || n.canonical_cmp(n) != Equal || n.composed_cmp(n) != Equal || !n.name_eq(n) {
+        bad("not-equal-to-itself");
     }
-    if n.composed_cmp(&flat) != std::cmp::Ordering::Equal || n.lowercase_composed_cmp(&canon) != std::cmp::Ordering::Equal || n.canonical_cmp(&flat) != std::cmp::Ordering::Equal || n.partial_cmp(&flat) != Some(std::cmp::Ordering::Equal) {
-        bad("orders-vs-flat-copy");
+    let (flat, flat_lower): (Name<&[u8]>, Name<&[u8]>) = match (Name::from_octets(want), Name::from_octets(lower)) {
+        (Ok(a), Ok(b)) => (a, b),
+        _ => {
+            bad("independent-labels-are-not-a-name");
+            t.errs.extend(errs);
+            return;
+        }
+    };
+    if !(*n == flat) || !(flat == *n) || !n.name_eq(&flat) || !flat.name_eq(n) || !n.name_eq(&flat_lower) {
+        bad("not-equal-to-flat-name-of-same-labels");
     }
+    if n.name_cmp(&flat) != Equal || flat.name_cmp(n) != Equal || n.canonical_cmp(&flat) != Equal || n.partial_cmp(&flat) != Some(Equal) || n.name_cmp(&flat_lower) != Equal {
+        bad("orders-vs-flat-name-of-same-labels");
+    }
+    if n.composed_cmp(&flat) != Equal || flat.composed_cmp(n) != Equal || n.lowercase_composed_cmp(&flat_lower) != Equal || flat_lower.lowercase_composed_cmp(n) != Equal || flat.lowercase_composed_cmp(n) != Equal {
+        bad("composed-orders-vs-flat-name-of-same-labels");
+    }
+    if !n.starts_with(&flat) || !n.ends_with(&flat) || !flat.ends_with(n) || !flat.starts_with(n) || !n.ends_with(&Name::root_ref()) {
+        bad("starts_with-or-ends_with-same-labels");
+    }
+    // ... and with a different one: the independent parent (RFC 4034 6.1: a name sorts after its parent)
+    if exp.len() > 1 {
+        let pw = &want[1 + exp[0].len()..];
+        let parent: Name<&[u8]> = Name::from_octets(pw).unwrap();
+        if *n == parent || parent == *n || n.name_eq(&parent) || parent.name_eq(n) {
+            bad("equal-to-its-parent");
+        }
+        if n.name_cmp(&parent) != Greater || parent.name_cmp(n) != Ordering::Less || n.canonical_cmp(&parent) != Greater || n.partial_cmp(&parent) != Some(Greater) {
+            bad("order-relative-to-its-parent");
+        }
+        if n.composed_cmp(&parent) != want.cmp(pw) || parent.composed_cmp(n) != pw.cmp(want) {
+            bad("composed-order-relative-to-its-parent");
+        }
+        if !n.ends_with(&parent) || n.starts_with(&parent) {
+            bad("ends_with-or-starts_with-its-parent");
+        }
+    }
+    // hash
     let (mut h1, mut h2) = (std::collections::hash_map::DefaultHasher::new(), std::collections::hash_map::DefaultHasher::new());
     n.hash(&mut h1);
     flat.hash(&mut h2);
     if h1.finish() != h2.finish() {
         bad("hash-differs-from-equal-flat-name");
     }
-    let want_rrsig = fwd.len() as u8 - 1 - (fwd[0].as_slice() == b"*") as u8;
+    let want_rrsig = exp.len() as u8 - 1 - (exp[0].as_slice() == b"*") as u8;
     if n.rrsig_label_count() != want_rrsig {
         bad("rrsig_label_count");
     }
-    let _ = format!("{} {:?}", n.fmt_with_dot(), n);
+    // display must work
+    let d = format!("{}", n);
+    if d.is_empty() {
+        bad("display-empty");
+    }
+    if !full {
+        t.errs.extend(errs);
+        return;
+    }
+    // ---- full
+    {
+        // mixed front/back pulls meet in the middle
+        let mut it = n.iter();
+        let mut front: Vec<&[u8]> = Vec::new();
+        let mut back: Vec<&[u8]> = Vec::new();
+        let mut turn = 0;
+        loop {
+            let x = if turn % 2 == 0 { it.next().map(|l| (true, l.as_slice())) } else { it.next_back().map(|l| (false, l.as_slice())) };
+            match x {
+                Some((true, l)) => front.push(l),
+                Some((false, l)) => back.push(l),
+                None => break,
+            }
+            turn += 1;
+            if turn > 300 {
+                break;
+            }
+        }
+        back.reverse();
+        front.extend(back);
+        if !front.iter().cloned().eq(exp.iter().map(|v| v.as_slice())) {
+            bad("labels-iterated-from-both-ends-differ-from-independent-labels");
+        }
+    }
+    if n.to_bytes().as_slice() != want || n.to_name::<Vec<u8>>().as_slice() != want {
+        bad("to_bytes-or-to_name-differs-from-independent-labels");
+    }
+    {
+        let f: Name<Vec<u8>> = n.ref_octets().flatten_into();
+        let g: Name<bytes::Bytes> = n.ref_octets().flatten_into();
+        if f.as_slice() != want || g.as_slice() != want {
+            bad("flatten_into-differs-from-independent-labels");
+        }
+    }
+    {
+        // the views are the same name
+        let r = n.ref_octets();
+        let dr = r.deref_octets();
+        if dr.to_vec().as_slice() != want || !(r == flat) || !(dr == flat) || r.as_flat_slice().map(|s| s == want) == Some(false) || dr.as_flat_slice().map(|s| s == want) == Some(false) || r.composed_cmp(&flat) != Equal || dr.composed_cmp(&flat) != Equal {
+            bad("ref_octets-or-deref_octets-view-differs-from-independent-labels");
+        }
+        buf.clear();
+        dr.compose(&mut buf).unwrap();
+        if buf != want {
+            bad("deref_octets-view-composes-differently");
+        }
+    }
+    let canon: Name<Vec<u8>> = n.to_canonical_name();
+    if canon.as_slice() != lower {
+        bad("to_canonical_name");
+    }
+    // comparisons with further different names: the root, one more label in front / before the root
+    let mut others: Vec<Vec<Vec<u8>>> = vec![vec![vec![]]];
+    if want.len() + 2 <= 255 {
+        let mut o = vec![b"q".to_vec()];
+        o.extend_from_slice(exp);
+        others.push(o);
+        let mut o = exp.to_vec();
+        let last = o.len() - 1;
+        o.insert(last, b"q".to_vec());
+        others.push(o);
+    }
+    for o in &others {
+        let ow = wire_of(o);
+        let olow = ow.to_ascii_lowercase();
+        let on: Name<&[u8]> = Name::from_octets(ow.as_slice()).unwrap();
+        let same = mc::wire::labels_eq_ci(&exp[..exp.len() - 1], &o[..o.len() - 1]);
+        let ord: Ordering = mc::wire::canonical_name_cmp(&exp[..exp.len() - 1], &o[..o.len() - 1]);
+        if (*n == on) != same || (on == *n) != same || n.name_eq(&on) != same {
+            bad("equality-with-a-different-flat-name");
+        }
+        if n.name_cmp(&on) != ord || on.name_cmp(n) != ord.reverse() || n.canonical_cmp(&on) != ord || n.partial_cmp(&on) != Some(ord) {
+            bad("order-relative-to-a-different-flat-name");
+        }
+        if n.composed_cmp(&on) != want.cmp(ow.as_slice()) || on.composed_cmp(n) != ow.as_slice().cmp(want) {
+            bad("composed-order-relative-to-a-different-flat-name");
+        }
+        if n.lowercase_composed_cmp(&on) != lower.cmp(olow.as_slice()) || on.lowercase_composed_cmp(n) != olow.as_slice().cmp(lower) {
+            bad("lowercase-composed-order-relative-to-a-different-flat-name");
+        }
+        if n.ends_with(&on) != (o.len() <= exp.len() && mc::wire::labels_eq_ci(&exp[exp.len() - o.len()..], o)) {
+            bad("ends_with-a-different-flat-name");
+        }
+        if n.starts_with(&on) != (o.len() <= exp.len() && mc::wire::labels_eq_ci(&exp[..o.len()], o)) {
+            bad("starts_with-a-different-flat-name");
+        }
+    }
+    // displays: with and without trailing dot agree
+    let dd = format!("{}", n.fmt_with_dot());
+    let _ = format!("{:?}", n);
+    if dd.is_empty() || !(dd == d || dd.strip_suffix('.') == Some(d.as_str())) {
+        bad("display-with-dot-is-not-display-plus-dot");
+    }
+    t.errs.extend(errs);
 }
 
 fn script(msg: &[u8], t: &mut T) {
@@ -663,9 +874,10 @@ fn run_case(ctx: &Ctx, stats: &Stats, wd: &Watchdog, msg: &[u8], family: &str) {
     stats.eval();
     wd.enter(|| json!({"message": hex(msg), "family": family}));
     let mut results = Vec::new();
-    for _ in 0..2 {
+    let rich = !ctx.quick() || matches!(family, "one-item" | "pointer-chains" | "replay");
+    for run in 0..2 {
         let r = guard(|| {
-            let mut t = T { s: String::new(), names: 0, ptr_names: 0, rdata_parsed: 0, errs: vec![] };
+            let mut t = T { s: String::new(), names: 0, ptr_names: 0, rdata_parsed: 0, errs: vec![], derived: 0, batteries: 0, derive: run == 0, full_derived: rich, deep: !ctx.quick() };
             script(msg, &mut t);
             t
         });
@@ -685,6 +897,9 @@ fn run_case(ctx: &Ctx, stats: &Stats, wd: &Watchdog, msg: &[u8], family: &str) {
             for e in &a.errs {
                 ctx.violation(&format!("C01|{e}"), e, case());
             }
+            DERIVED.fetch_add(a.derived as u64, std::sync::atomic::Ordering::Relaxed);
+            BATTERIES.fetch_add(a.batteries as u64, std::sync::atomic::Ordering::Relaxed);
+            NAMES.fetch_add(a.names as u64, std::sync::atomic::Ordering::Relaxed);
             if a.rdata_parsed > 0 || a.ptr_names > 0 {
                 stats.nontrivial.fetch_add(1, std::sync::atomic::Ordering::Relaxed);
                 stats.distinct(fnv(msg));
@@ -1238,10 +1453,13 @@ fn main() {
     let cov = json!({
         "evaluations": stats.evals(),
         "distinct_nontrivial": stats.nontrivial.load(std::sync::atomic::Ordering::Relaxed).min(stats.distinct_count()),
-        "rule": "messages = header variants x items from per-field menus (names incl. pointers to every landmark, ~35 record types x RDATA variants incl. every internal length field short/long, rdlen exact/-1/+1/0/0xFFFF) for 1, 2 and 3 items; the pointer-chain family (every topology of up to three chained pointers, bare or behind one or two labels, aimed at the start of the previous name or at its pointer cell, ending at every kind of name position); every truncation of short one-item messages; every raw body over 9 symbols to the raw length. Each case runs the full read-side script twice. non-trivial = typed RDATA or OPT option parsing succeeded at least once or a compressed name was returned; distinct = distinct message octets (hash set) among those",
+        "rule": "messages = header variants x items from per-field menus (names incl. pointers to every landmark, ~35 record types x RDATA variants incl. every internal length field short/long, rdlen exact/-1/+1/0/0xFFFF) for 1, 2 and 3 items; the pointer-chain family (every topology of up to three chained pointers, bare or behind one or two labels, aimed at the start of the previous name or at its pointer cell, ending at every kind of name position); every truncation of short one-item messages; every raw body over 9 symbols to the raw length. Each case runs the full read-side script twice. Every name handed out (question, owner, RDATA names, canonical_name) must be the independent decompression (mc::wire) of some position of the message and passes the name battery (label iteration from both ends, to_vec/to_bytes/to_name/compose/compose_len/as_flat_slice/try_flatten_into/flatten_into/to_cow/deref_octets/canonical forms equal to the independent wire form; ==, name_eq, name_cmp, canonical_cmp, partial_cmp, composed_cmp, lowercase_composed_cmp, starts_with, ends_with in both directions against flat names built from the independent labels: the same name, its lowercase form, the root, the parent, one label more in front / before the root, with the RFC 4034 order as oracle; hash; displays); the SAME battery is applied to every name object derived from it: the ref_octets/deref_octets views, every item of iter_suffixes(), every step of the parent() walk, of the split_first() walk and of the two alternating parent/split_first walks (incl. the refused step at the root), each against the matching suffix of the independent labels, plus equality of the same suffix reached by different routes (thorough: derivations of every derived object once more). non-trivial = typed RDATA or OPT option parsing succeeded at least once or a compressed name was returned; distinct = distinct message octets (hash set) among those",
         "distinct_transcript_shapes_and_messages": stats.distinct_count(),
         "exhaustive": true,
         "raw_len": rawlen,
+        "names_exercised": NAMES.load(std::sync::atomic::Ordering::Relaxed),
+        "derived_name_objects_exercised": DERIVED.load(std::sync::atomic::Ordering::Relaxed),
+        "name_batteries_run": BATTERIES.load(std::sync::atomic::Ordering::Relaxed),
         "samples": stats.samples(),
         "counters": stats.counters_json(),
     });
